@@ -57,3 +57,48 @@ Definition u8_parser_advance (p : u8parser) (b : N) : u8parser * u8out :=
   | SetByte3Top => (mkU8 (N.lor (u8point p) (N.shiftl (N.land b 15) 12)) st, U8None)
   | SetByte4 => (mkU8 (N.lor (u8point p) (N.shiftl (N.land b 7) 18)) st, U8None)
   end.
+
+(* ---- vocabulary of the function translator (tools/gen_fn_utf8parse.py); definitions only ---- *)
+
+(* per-field setters of `struct Parser { point: u32, state: State }` *)
+Definition set_u8point (p : u8parser) (v : N) : u8parser := mkU8 v (u8st p).
+Definition set_u8st (p : u8parser) (s : u8state) : u8parser := mkU8 (u8point p) s.
+
+(* declaration order = the explicit discriminants of `enum State` / `enum Action` (checked by the plug-in) *)
+Definition u8state_disc (s : u8state) : N :=
+  match s with
+  | U8Ground => 0 | U8Tail3 => 1 | U8Tail2 => 2 | U8Tail1 => 3
+  | U8_3_2_e0 => 4 | U8_3_2_ed => 5 | U8_4_3_f0 => 6 | U8_4_3_f4 => 7
+  end.
+Definition u8action_disc (a : u8action) : N :=
+  match a with
+  | InvalidSequence => 0 | EmitByte => 1 | SetByte1 => 2 | SetByte2 => 3
+  | SetByte2Top => 4 | SetByte3 => 5 | SetByte3Top => 6 | SetByte4 => 7
+  end.
+Definition u8state_eqb (a b : u8state) : bool := u8state_disc a =? u8state_disc b.
+Definition u8action_eqb (a b : u8action) : bool := u8action_disc a =? u8action_disc b.
+Definition all_u8states : list u8state :=
+  [U8Ground; U8Tail3; U8Tail2; U8Tail1; U8_3_2_e0; U8_3_2_ed; U8_4_3_f0; U8_4_3_f4].
+Definition all_u8actions : list u8action :=
+  [InvalidSequence; EmitByte; SetByte1; SetByte2; SetByte2Top; SetByte3; SetByte3Top; SetByte4].
+
+(* `a << i` at width w: a debug build panics when i >= w; bits shifted out are lost *)
+Definition u8_cshl (w a i : N) : option N := if i <? w then Some (N.shiftl a i mod 2 ^ w) else None.
+
+(* a `Receiver` is observed through the calls it gets, in order: `codepoint(c)` = U8Codepoint c,
+   `invalid_sequence()` = U8Invalid.  [u8_events o] is the call list of one `advance` that answered o,
+   [u8_deliver] runs a receiver (its two methods as functions on its state) over a call list. *)
+Definition u8_events (o : u8out) : list u8out :=
+  match o with U8None => [] | _ => [o] end.
+Definition u8_deliver {R : Type} (cp : R -> N -> R) (inv : R -> R) (evs : list u8out) (r : R) : R :=
+  fold_left (fun r ev => match ev with U8None => r | U8Codepoint c => cp r c | U8Invalid => inv r end) evs r.
+
+(* anstyle-parse: `struct Utf8Parser { utf8_parser: utf8parse::Parser }` is the decoder itself,
+   `struct VtUtf8Receiver<'a>(&'a mut Option<char>)` the option it borrows *)
+Definition u8acc_inner (u : u8parser) : u8parser := u.
+Definition set_u8acc_inner (_ v : u8parser) : u8parser := v.
+Definition u8rcv_slot (r : option N) : option N := r.
+Definition set_u8rcv_slot (_ v : option N) : option N := v.
+
+(* a Unicode scalar value: what `char::from_u32_unchecked` requires of its argument *)
+Definition u8_is_scalar (c : N) : bool := (c <? 55296) || ((57343 <? c) && (c <? 1114112)).
